@@ -140,13 +140,27 @@ def calls(node: ast.AST, *names: str) -> list[ast.Call]:
     return out
 
 
-def arg(call: ast.Call, pos: int, name: str) -> ast.AST | None:
+def arg(call: ast.Call, pos: int, name: str, defs: "Defs | None" = None) -> ast.AST | None:
     """Positional-or-keyword argument of a call."""
     for k in call.keywords:
         if k.arg == name:
             return k.value
     plain = [a for a in call.args if not isinstance(a, ast.Starred)]
-    return plain[pos] if pos < len(plain) and len(plain) == len(call.args) else None
+    if len(plain) == len(call.args):
+        return plain[pos] if pos < len(plain) else None
+    # `f(a, b, *rest)` with `rest = (c, d)` spelled out a few lines above: the splat of a tuple literal is those arguments
+    if defs is not None:
+        flat: list[ast.AST] = []
+        for a in call.args:
+            if isinstance(a, ast.Starred):
+                v = defs.resolve(a.value)
+                if not isinstance(v, (ast.Tuple, ast.List)) or any(isinstance(e, ast.Starred) for e in v.elts):
+                    return None
+                flat += list(v.elts)
+            else:
+                flat.append(a)
+        return flat[pos] if pos < len(flat) else None
+    return None
 
 
 class Scope:
